@@ -502,7 +502,8 @@ impl IoLoop {
                 }
             },
             Token(n) if n <= u16::max_value() as usize => {
-                self.inner.handle_channel_readable(n as u16)?
+                self.inner
+                    .handle_channel_readable(n as u16, self.buffered_writes_high_water)?
             }
             _ => unreachable!(),
         }
@@ -613,6 +614,11 @@ impl IoLoop {
                 debug!("returned below low water mark for buffered writes; resuming channels",);
                 self.inner.reregister_nonzero_channels(&self.poll)?;
                 listening_to_channels = true;
+            } else if listening_to_channels && self.inner.channels_need_repoll {
+                // A channel was left with messages in it (see handle_channel_readable), but
+                // enough was written in this same batch that we are not throttling. Its
+                // edge-triggered wake-up is spent; reregistering fires it again.
+                self.inner.reregister_nonzero_channels(&self.poll)?;
             }
 
             // If we have data to write, reregister for readable|writable. This may be a
@@ -672,6 +678,10 @@ struct Inner {
 
     // If true, non-0 channels are registered with mio. (Channel 0 is always registered.)
     channels_are_registered: bool,
+
+    // If true, we stopped receiving from a non-0 channel while it may still have held
+    // messages; cleared by the next reregistration, which wakes such channels up again.
+    channels_need_repoll: bool,
 }
 
 impl Inner {
@@ -682,6 +692,7 @@ impl Inner {
             chan_slots: ChannelSlots::new(),
             mio_channel_bound,
             channels_are_registered: true,
+            channels_need_repoll: false,
         }
     }
 
@@ -735,6 +746,7 @@ impl Inner {
             .context(RegisterWithPollHandleSnafu)?;
         }
         self.channels_are_registered = true;
+        self.channels_need_repoll = false;
         Ok(())
     }
 
@@ -780,8 +792,16 @@ impl Inner {
         }
     }
 
-    fn handle_channel_readable(&mut self, channel_id: u16) -> Result<()> {
+    fn handle_channel_readable(&mut self, channel_id: u16, high_water: usize) -> Result<()> {
         loop {
+            // Stop taking messages once we are past the high-water mark: a publisher that
+            // keeps up with this loop would otherwise keep us in it, buffering without
+            // bound and never getting back to the socket. What stays in the channel keeps
+            // it readable; run_io_loop sees to it that we are woken for it again.
+            if self.outbuf.len() > high_water {
+                self.channels_need_repoll = true;
+                return Ok(());
+            }
             let slot = match self.chan_slots.get(channel_id) {
                 Some(slot) => slot,
                 None => {
